@@ -1505,3 +1505,10 @@ mut("caching_refresh_keeps_entry_when_key_unchanged", ["C04", "C01"], "CACHE-1|i
     note="the cached entry is only filled once")
 mut("memfile_read_exact_reports_invalid_input", ["C12", "C16", "C02"], "FS-4|<fs::fs_mem::LockableInMemoryFile as std::io::Read>::read_exact", patch="seed_C12-T_memfile_read_exact_invalid_input.diff",
     note="seed C12-T: an overridden read_exact reports the end of the file as InvalidInput; a log torn inside a block trailer fails the open")
+
+# ---- round 12: third blind-spot review (the LRU cache behind the table cache and the block cache)
+mut("lru_new_id_not_incremented", ["C13", "C01"], "CACHE-2|<utils::cache::LRUCache<K, V> as utils::cache::Cache<K, V>>::new_id|fresh-id", patch="lru_new_id_not_incremented.diff",
+    note="every table gets block-cache partition 1: tables serve each other's blocks at equal offsets")
+mut("lru_eviction_removes_the_new_key", ["C13", "C01"], "CACHE-2|<utils::cache::LRUCache<K, V> as utils::cache::Cache<K, V>>::insert|eviction-removes-the-evicted-key", patch="lru_eviction_removes_the_new_key.diff",
+    note="an eviction unmaps the entry just inserted and leaves the evicted key mapped to an unlinked node")
+benign_patch("refactor_s12_01", "benign/set12_01_new_id_post_increment.diff", note='new_id hands out the value before the increment (just as fresh)')
